@@ -20,7 +20,7 @@ func init() {
 			"(R2) no aliasing: nothing derived by slicing from the connection read buffer's Bytes() is stored into a frame field, wrapped by NewIoBufferBytes or published through variable.Set (copy/Write/string() are the barriers). " +
 			"(R3) the fast path returns the retained buffer only under every dirty bit the frame's mutators write (or the mutators drop the retained bytes), and writes nothing but the id patch into retained memory. " +
 			"(R4) every narrowing conversion of a length that is written to the wire is dominated by a bound check. " +
-			"(R5) the TCP relay writes a Clone of the received buffer, drains exactly Len() after the write, and a remote close is propagated with FlushWrite. (R6) HTTP/1: no method that can set fasthttp.Request.parsedURI (URI, Host, SetHost, SetHostBytes, SetURI; table recomputed from fasthttp source in the thorough tier) is called on the client stream's outgoing request, so Write emits the request line exactly as it was set. (R7) in pkg/stream/http2 the []byte HandleFrame returns (a view of the read buffer) is only copied or measured: a taint analysis rejects wrapping (NewIoBufferBytes), stores outside locals, appends as a value and calls that may keep it. (R1, round 5) the length of the retained copy of a bolt/boltv2 frame is, as a linear form, a positive constant plus wire-length atoms with coefficient 1; arithmetic evaluated in an 8/16-bit type is opaque (it wraps), so int(classLen+headerLen) is not that sum. (R8) every return of connection.doRead reachable from ReadOnce without passing onRead is dominated by n == 0, closed == 1 or err != io.EOF: data returned together with EOF is delivered.",
+			"(R5) the TCP relay writes a Clone of the received buffer, drains exactly Len() after the write, and a remote close is propagated with FlushWrite. (R6) HTTP/1: no method that can set fasthttp.Request.parsedURI (URI, Host, SetHost, SetHostBytes, SetURI; table recomputed from fasthttp source in the thorough tier) is called on the client stream's outgoing request, so Write emits the request line exactly as it was set. (R7) in pkg/stream/http2 the []byte HandleFrame returns (a view of the read buffer) is only copied or measured: a taint analysis rejects wrapping (NewIoBufferBytes), stores outside locals, appends as a value and calls that may keep it. (R1, round 5) the length of the retained copy of a bolt/boltv2 frame is, as a linear form, a positive constant plus wire-length atoms with coefficient 1; arithmetic evaluated in an 8/16-bit type is opaque (it wraps), so int(classLen+headerLen) is not that sum. (R8) every return of connection.doRead reachable from ReadOnce without passing onRead is dominated by n == 0, closed == 1 or err != io.EOF: data returned together with EOF is delivered. (R9) in the HTTP/2 client's AppendHeaders a store to Request.URL outside the isReqHeader == false edge installs an object initialised with *req.URL.",
 		Run: runC01,
 	})
 }
